@@ -53,6 +53,8 @@
 //     dropped; methods listed under "identity" return their receiver;
 //   - "recv_nonnil" models a pointer receiver as the struct itself (the
 //     assumption that callers never pass nil is stated where it is used).
+//   - the zero value of a slice (a named result) is the empty list;
+//     newDeviceDataError(err, typ), like fmt.Errorf, makes a non-nil error;
 //   - a pointer to an abstract (library) struct has no value in Lean: `p == nil`
 //     / `p != nil` on it is an opaque Boolean parameter `e<k>_<p>_isNil` (one per
 //     source text of p), and a definition `x := e` of a local of an abstract
@@ -984,7 +986,7 @@ func (c *fctx) call(x *ast.CallExpr) ex {
 	if isError(c.typeOf(x)) && !c.trace {
 		if tup, ok := c.typeOf(x).(*types.Tuple); !ok || tup.Len() == 1 {
 			switch c.show(x.Fun) {
-			case "fmt.Errorf", "errors.New", "errors.Error", "newNotPositiveError", "newNegativeError", "newMustBeUniqueError":
+			case "fmt.Errorf", "errors.New", "errors.Error", "newNotPositiveError", "newNegativeError", "newMustBeUniqueError", "newDeviceDataError":
 				return ex{code: fmt.Sprintf("(some %q)", c.show(x))}
 			}
 		}
@@ -1455,6 +1457,8 @@ func (c *fctx) zero(t types.Type) string {
 		return "\"\""
 	case strings.HasPrefix(lt, "(Option"):
 		return "none"
+	case strings.HasPrefix(lt, "(List"):
+		return "[]"
 	}
 	fail("zero value of %s", t)
 	return ""
@@ -1527,8 +1531,6 @@ func (c *fctx) assignStmt(x *ast.AssignStmt, rest []ast.Stmt) string {
 		c.p.info.Types[be] = types.TypeAndValue{Type: c.typeOf(x.Lhs[0])}
 		return c.assign(x.Lhs[0], c.expr(be), rest, nil)
 	}
-	if len(x.Lhs) == len(x.Rhs) {
-		if len(x.Lhs) == 1 {
 	if id, ok := x.Lhs[0].(*ast.Ident); ok && len(x.Lhs) == 1 && len(x.Rhs) == 1 && x.Tok == token.DEFINE && id.Name != "_" && c.t.leanType(c.lhsType(id)) == "" {
 		// `x := e` with x of an abstract (library) type binds nothing; a call on the right is still traced
 		if call, isCall := x.Rhs[0].(*ast.CallExpr); isCall && c.trace && !c.matches(c.spec.Pure, call) {
@@ -1536,6 +1538,8 @@ func (c *fctx) assignStmt(x *ast.AssignStmt, rest []ast.Stmt) string {
 		}
 		return c.stmts(rest)
 	}
+	if len(x.Lhs) == len(x.Rhs) {
+		if len(x.Lhs) == 1 {
 			return c.assign(x.Lhs[0], c.exprAs(x.Rhs[0], c.lhsType(x.Lhs[0])), rest, nil)
 		}
 		// parallel assignment: evaluate all, then assign
